@@ -723,3 +723,170 @@ def check_named_flags(ctx, rep):
                 else:
                     rep.bad("R-FLAG", "R-FLAG:" + key, body.where(bi), "%s reads the %s fields on the `utc == %s` edge: the flag selects the opposite clock" % (body.rec["name"], kind, (pol or "?").lower()))
     return n
+
+
+# ---------------------------------------------------------------------- C17: the error register, and verb-for-verb delegation
+def check_error_register(ctx, rep):
+    """'a retrievable error message': the last-error slot is overwritten unconditionally by every failure (the newest failure
+    is the one retrieved) and emptied by the read"""
+    prog = ctx.prog
+    n = 0
+    root = next((b for b in prog.bodies.values() if b.rec["kind"] != "Closure" and b.short.endswith("c_api::err::update_last_error")), None)
+    if root is None:
+        rep.gap("c_api::err::update_last_error", "-", "not found")
+        return 0
+    fam = [root]
+    st = [root.id]
+    while st:
+        x = st.pop()
+        for c in prog.closures_of.get(x, []):
+            fam.append(prog.bodies[c])
+            st.append(c)
+    stores = []
+    cond = []
+    for fb in fam:
+        for bi in range(fb.n):
+            for s in fb.blocks[bi]["stmts"]:
+                if s["k"] == "assign" and s["lhs"]["p"] and s["lhs"]["p"][0] == "*":
+                    v = None
+                    if s["rv"]["k"] == "agg":
+                        v = s["rv"].get("variant")
+                    elif s["rv"]["k"] == "use":
+                        dv = G.describe(fb, s["rv"]["op"])
+                        v = dv.v if dv.kind == "agg" else None
+                    if v == "Some":
+                        stores.append((fb, bi))
+            t = fb.term(bi)
+            if t["k"] == "call":
+                nm = strip_generics(mir.callee_name(t) or "")
+                if re.search(r"Option::(get_or_insert|get_or_insert_with|or|or_else|xor|is_none|is_some|insert|replace|take_if|filter)$", nm) or re.search(r"RefCell::(try_borrow_mut)$", nm):
+                    cond.append((fb, bi, nm.split("::")[-1]))
+            if t["k"] == "drop" and False:
+                pass
+    n += 1
+    unconditional = False
+    for fb, bi in stores:
+        # the store dominates every return of its body
+        rets = [x for x in range(fb.n) if fb.term(x)["k"] == "return"]
+        idom = fb.idom()
+
+        def dominates(a, b2):
+            while True:
+                if b2 == a:
+                    return True
+                if b2 == 0 or b2 not in idom:
+                    return False
+                b2 = idom[b2]
+
+        if rets and all(dominates(bi, r) for r in rets):
+            unconditional = True
+    if unconditional and not cond:
+        rep.ok("R-ERR", "error-register:last-writer-wins", root.where(), "update_last_error stores Some(err) into the slot on every path, without looking at what was there")
+    else:
+        rep.bad("R-ERR", "R-ERR:error-register:last-writer-wins", root.where(), "update_last_error does not overwrite the slot unconditionally (%s): after two failures in a row the message retrieved is not the one of the last failure" % (", ".join(c[2] for c in cond) or "no dominating store of Some(err)"))
+    tk = next((b for b in prog.bodies.values() if b.rec["kind"] != "Closure" and b.short.endswith("c_api::err::take_last_error")), None)
+    if tk is not None:
+        n += 1
+        names = []
+        stt = [tk.id]
+        while stt:
+            x = stt.pop()
+            names += [strip_generics(mir.callee_name(t) or "") for _, t in prog.bodies[x].calls()]
+            stt += prog.closures_of.get(x, [])
+        if any(x.endswith("Option::take") for x in names):
+            rep.ok("R-ERR", "error-register:read-clears", tk.where(), "take_last_error is Option::take on the slot")
+        else:
+            rep.bad("R-ERR", "R-ERR:error-register:read-clears", tk.where(), "take_last_error does not take() the slot: a stale message stays retrievable")
+    return n
+
+
+COLLECTION_MUTATORS = {"insert", "remove", "push", "pop", "swap_remove", "retain", "retain_mut", "clear", "truncate", "drain", "append", "extend", "extend_from_slice", "entry",
+                       "dedup", "dedup_by", "dedup_by_key", "sort", "sort_by", "sort_unstable", "reverse", "split_off", "resize", "swap", "push_front", "push_back", "pop_first",
+                       "pop_last", "remove_entry", "try_insert", "or_insert", "or_insert_with", "or_default", "and_modify", "rotate_left", "rotate_right", "fill", "insert_mut"}
+# verb in the exported name -> the collection operation(s) it stands for (`set` is today's insert-before semantics, see DESIGN 9.3)
+VERB_OPS = {"insert": {"insert"}, "remove": {"remove"}, "push": {"push"}, "set": {"insert"}}
+
+
+def check_verb_delegation(ctx, rep):
+    """'list / dict / grid handles behave as the sequence, map and table they wrap': an exported function whose name carries a
+    collection verb performs exactly that operation of the wrapped std collection (and no other mutation) - swap_remove for
+    remove or entry().or_insert for insert give different results on the same values"""
+    prog = ctx.prog
+    from rules import entries
+
+    n = 0
+    for f in entries.extern_c(prog):
+        b = prog.bodies[f]
+        name = b.rec["name"]
+        m = re.match(r"^haystack_value_(insert|remove|push|set)_(dict|list|grid)_", name)
+        muts = []
+        fam = [b.id]
+        ids = [b.id]
+        while ids:
+            x = ids.pop()
+            for c in prog.closures_of.get(x, []):
+                fam.append(c)
+                ids.append(c)
+        for fid in fam:
+            fb = prog.bodies[fid]
+            for bi, t in fb.calls():
+                nm = strip_generics(mir.callee_name(t) or "")
+                if re.match(r"^(std|alloc)::(vec::Vec|collections::(BTreeMap|HashMap|VecDeque|btree_map::Entry|btree_map::OccupiedEntry|btree_map::VacantEntry|hash_map::Entry))(::|<)", nm) or re.match(r"^(std|alloc)::collections::btree_map::", nm) or re.match(r"^core::slice::<impl \[T\]>::", nm):
+                    op = nm.split("::")[-1]
+                    if op in COLLECTION_MUTATORS:
+                        muts.append((fb, bi, op))
+        if not m and not muts:
+            continue
+        n += 1
+        key = "%s:verb-delegation" % name
+        if not m:
+            # mutators in functions without a collection verb: constructors filling a fresh collection are fine (push / insert / extend)
+            odd = [x for x in muts if x[2] not in ("push", "insert", "extend", "sort")]
+            if odd:
+                rep.bad("R-KIND", "R-KIND:" + key, odd[0][0].where(odd[0][1]), "%s mutates a collection with %s although its name promises no such operation" % (name, odd[0][2]))
+            else:
+                rep.ok("R-KIND", key, b.where(), "only fills a collection it builds (%s)" % sorted({x[2] for x in muts}))
+            continue
+        want = VERB_OPS[m.group(1)]
+        ops = {x[2] for x in muts}
+        if ops & want and not (ops - want):
+            rep.ok("R-KIND", key, b.where(), "%s is %s on the wrapped %s" % (m.group(1), "/".join(sorted(ops)), m.group(2)))
+        else:
+            w = muts[0] if muts else None
+            rep.bad("R-KIND", "R-KIND:" + key, (w[0].where(w[1]) if w else b.where()), "%s performs %s on the wrapped %s, the Rust operation of that name is %s: same values, different result" % (name, sorted(ops) or "no mutation", m.group(2), "/".join(sorted(want))))
+    return n
+
+
+def check_returned_strings(ctx, rep):
+    """every `*const c_char` / `*mut c_char` an exported function returns is either null or the result of CString::into_raw:
+    the documented protocol frees every returned string with haystack_string_destroy (CString::from_raw), which is undefined
+    on a pointer into static or borrowed memory"""
+    prog = ctx.prog
+    from rules import entries
+
+    n = 0
+    for f in entries.extern_c(prog):
+        b = prog.bodies[f]
+        out = b.rec.get("sig_output", "")
+        if not re.match(r"^\*(const|mut) (i8|u8|std::ffi::c_char|core::ffi::c_char|std::os::raw::c_char)$", out):
+            continue
+        n += 1
+        bad = []
+        for bi2, si, rv in b.defs().get(0, []):
+            if si == "term":
+                t = b.term(bi2)
+                nm = strip_generics(mir.callee_name(t) or "")
+                if nm not in ("std::ffi::CString::into_raw", "std::ptr::null", "std::ptr::null_mut"):
+                    bad.append((bi2, nm))
+                continue
+            v = G.describe(b, rv["op"]) if rv["k"] in ("use", "cast") else G.describe_place(b, rv.get("place")) if rv["k"] in ("ref", "rawptr") else None
+            r = repr(v) if v is not None else "?"
+            if v is not None and ((v.kind == "call" and v.v in ("std::ffi::CString::into_raw", "std::ptr::null", "std::ptr::null_mut")) or (v.kind == "const" and v.v == 0)):
+                continue
+            bad.append((bi2, r[:80]))
+        key = "returned-string:%s" % b.rec["name"]
+        if bad:
+            rep.bad("R-FFI-N3", "R-FFI-N3:" + key, b.where(bad[0][0]), "%s returns a char pointer that is neither null nor CString::into_raw (%s): haystack_string_destroy on it frees memory the allocator never handed out" % (b.rec["name"], bad[0][1]))
+        else:
+            rep.ok("R-FFI-N3", key, b.where(), "returns null or CString::into_raw on every path")
+    return n
